@@ -41,7 +41,9 @@ Prog(kind, carrier, branches, handler) ==
 \* generic builder: prof = sequence of depths; S(b, k) = items of step k of branch b
 Build(kind, carrier, prof, S(_, _), Nm(_), In(_), h) ==
   Prog(kind, carrier,
-       [i \in 1 .. Len(prof) |-> Branch(i - 1, Nm(i - 1), In(i - 1), [k \in 1 .. prof[i] |-> S(i - 1, k - 1)])], h)
+       [i \in 1 .. Len(prof) |-> Branch(i - 1, Nm(i - 1), In(i - 1),
+                                         IF prof[i] = 0 THEN << <<>> >>      \* depth 0: only the initial expression
+                                         ELSE [k \in 1 .. prof[i] |-> S(i - 1, k - 1)])], h)
 NoName(b) == "none"
 ExprInit(b) == "expr"
 DefaultHandler(kind) == IF kind.try THEN "map" ELSE "then"
@@ -75,14 +77,17 @@ StepsC04(b, d, try) ==
   [k \in 1 .. d |-> <<Item(IdOf(b, k - 1, 1), IF try /\ k % 2 = 0 THEN "and_then" ELSE "map", "closure", <<>>)>>]
 ProgC04c(kind, carrier, prof, h) ==
   Prog(kind, carrier,
-       [i \in 1 .. Len(prof) |-> Branch(i - 1, IF i % 2 = 0 THEN "let" ELSE "none", "expr", StepsC04(i - 1, prof[i], kind.try))],
+       [i \in 1 .. Len(prof) |-> Branch(i - 1, IF i % 2 = 0 THEN "let" ELSE "none", "expr",
+                                         IF prof[i] = 0 THEN << <<>> >> ELSE StepsC04(i - 1, prof[i], kind.try))],
        IF h THEN (IF kind.try THEN "map" ELSE "then") ELSE "none")
 ProgC04(kind, prof, h) == ProgC04c(kind, "res", prof, h)
+\* depth 0: a branch that is only its initial expression (one step without any action)
+BareC04 == {<<0>>, <<0, 0>>, <<0, 1>>, <<1, 0>>, <<0, 2>>, <<2, 0, 1>>, <<0, 0, 2>>, <<3, 0>>}
 WideC04 == {<<2, 1, 3, 1, 2>>, <<1, 3, 2, 3, 1, 2>>, <<3, 2, 1, 1, 2, 3>>}      \* five and six branches, non-monotone
 FamC04(dummy) ==
   LET nmax == IF Tier = "quick" THEN 3 ELSE 4
       dmax == 3
-  IN  {Run(ProgC04(kd, pr, h), <<>>, {}) : kd \in Kinds8, pr \in Profiles(nmax, dmax) \cup WideC04, h \in BOOLEAN}
+  IN  {Run(ProgC04(kd, pr, h), <<>>, {}) : kd \in Kinds8, pr \in Profiles(nmax, dmax) \cup WideC04 \cup BareC04, h \in BOOLEAN}
       \cup {Run(ProgC04c(Kind(FALSE, t, sp), "opt", pr, h), <<>>, {}) : t \in BOOLEAN, sp \in BOOLEAN, h \in BOOLEAN,
                pr \in {<<2>>, <<1, 2>>, <<3, 1, 2>>, <<1, 2, 2>>, <<2, 1, 3, 1, 2>>}}
 
@@ -200,6 +205,10 @@ FamC09(dummy) ==
          P \in {[Build(Kind(TRUE, t, sp), "res", pr, StepC09, NoName, InC09, IF t THEN "and_then" ELSE "then") EXCEPT !.hform = hf] :
                   t \in BOOLEAN, sp \in BOOLEAN, hf \in {"closure", "call"},
                   pr \in IF Tier = "quick" THEN {<<1>>, <<2>>, <<1, 1>>, <<2, 1>>, <<1, 2>>, <<2, 2>>, <<2, 1, 2>>} ELSE Profiles(2, 3) \cup {<<1, 1, 1>>, <<2, 1, 2>>, <<2, 2, 2>>, <<1, 3, 3>>}}}
+  \* no handler; branches that are only an initial future (depth 0), alone and next to others
+  \cup UNION {{Run(P, <<>>, G) : G \in {{}, InitIds(P)}} :
+              P \in {Build(Kind(TRUE, t, sp), "res", pr, StepC09, NoName, ExprInit, "none") : t \in BOOLEAN, sp \in BOOLEAN,
+                       pr \in {<<0>>, <<1>>, <<0, 0>>, <<0, 1>>, <<2, 0>>}}}
 
 \* ---- C10: every operator class, every operand form, faults and recoveries
 StepC10(b, k) ==
@@ -341,7 +350,9 @@ Runs(dummy) ==
             [] Family = "C03h" -> FamC03h(0)
             [] Family = "C06" -> FamC06(0)
             [] Family = "C06h" -> FamC06h(0)
-            [] Family = "C07" -> FamC07(0)
+            \* + readiness orders of failing branches in the task-spawning async try macro, under both of its names
+            [] Family = "C07" -> FamC07(0) \cup {[r EXCEPT !.prog.macro = m] : m \in MacroNames(Kind(TRUE, TRUE, TRUE)),
+                                                   r \in {q \in FamC05a(0) : q.prog.kind.spawn /\ q.prog.handler = "none" /\ NB(q.prog) = 2}}
             [] Family = "C07x" -> {[r EXCEPT !.prog.macro = AliasOf(r.prog.kind)] :
                                      r \in {q \in FamC04(0) \cup FamC10(0) \cup FamC13(0) \cup FamC16(0) : q.prog.kind.spawn}}
             [] Family = "C08" -> FamC08(0)
